@@ -31,27 +31,41 @@ RULE = (
     "result; results depend on the call index) of the interpreted REAL CFG vs the call trace of CPython on the same source; "
     "real CFG vs Lean `build`; Lean `run` vs CPython and vs the real-CFG interpretation. non-trivial = at least 2 external "
     "calls and at least one lifted sub-expression (and/or, conditional expression, chained comparison, walrus); distinct "
-    "by (source, rn, arguments)"
+    "by (source, rn, arguments). Order-edge phase (tie_order): typed programs (1-4 helper functions + main calling each "
+    "other, result / panic / exit / qubit allocation and measurement, array indexing and assignment, Option.unwrap, qubit-array "
+    "comprehensions, comptime helpers, a higher-order helper; nested if/while/for) are checked and lowered by the real compiler "
+    "with Hugr.add_node / Hugr.add_order_link / core.track_hugr_side_effects recorded; case = one track_hugr_side_effects "
+    "context: recorded add_order_link calls vs Lean `order` (Model/OrderEdges.lean) on the recorded node insertions, and vs "
+    "the oracle (per region exactly one path Input -> side-effecting children by first effect -> Output; effects decided "
+    "independently of may_have_side_effect); non-trivial = at least 2 side-effecting nodes and a linked container"
 )
 ASSUMPTIONS = list(base.ASSUMPTIONS) + [
     "side effects are represented by calls to external functions; result reports, panics, qubit allocation and measurement are "
-    "calls as far as the CFG builder is concerned (the order-edge insertion of the HUGR lowering is outside this tie)",
+    "calls as far as the CFG builder is concerned (the order-edge insertion of the HUGR lowering is tied separately: "
+    "base.tie_order)",
 ]
 UNMODELLED = list(base.UNMODELLED) + [
-    "track_hugr_side_effects / order edges in the lowered HUGR; tuple and array construction, subscripts, panics",
+    "tuple and array construction, subscripts, panics in the CFG-builder tie (they occur in the typed programs of the "
+    "order-edge phase tie_order, which ties core.track_hugr_side_effects to Model/OrderEdges.lean); the execution order "
+    "a HUGR runtime derives from order edges",
 ]
 MANIFEST = {
     "level_text": "Lean theorems over the hand-written model of the expression/branch builders of cfg/builder.py: for every "
     "hoist-safe program and argument store the sequence of external calls performed by the built CFG equals the sequence "
     "performed by Python's evaluation of the source (each call exactly once, left to right, arguments before the call, "
-    "short-circuit operands only when Python evaluates them); counterexample theorems for the two D9 classes. Model tied to "
-    "/repo on every run as in C03 (structure of the real CFG, interpretation of the real CFG against CPython call traces).",
+    "short-circuit operands only when Python evaluates them); counterexample theorems for the two D9 classes; "
+    "track_hugr_side_effects: for every sequence of node insertions the state-order edges form one repetition-free chain "
+    "Input -> linked nodes -> Output per region, a side-effecting node is linked last at once, edges are append-only "
+    "(order_edges_total_partial under the recorded no-double-link condition). Model tied to "
+    "/repo on every run as in C03 (structure of the real CFG, interpretation of the real CFG against CPython call traces); typed "
+    "programs are lowered by the real compiler, every node insertion and add_order_link call is recorded per definition and "
+    "compared with the order-edge model and with an independent per-region path oracle; Call-count probes on the lowered Hugr.",
     "level_note": "Trusted: Lean kernel + propext/Classical.choice/Quot.sound; the reading of a CFG (exec of the real block "
     "statements); correspondence is sampling. D9 (middle operand of a chained comparison evaluated twice; lifted "
     "sub-expressions hoisted before left siblings) are known findings.",
     "technique": "Lean 4 proof over a hand-written builder model + differential correspondence with cfg/builder.py and CPython call traces",
     "design_ref": "DESIGN.md §5 C05",
-    "ready": False,
+    "ready": True,
 }
 
 
@@ -74,6 +88,10 @@ class Profile5(base.Profile):
 
 def tie(ctx):
     base.tie(ctx, Profile5)
+    base.tie_call_probes(ctx)  # T-obj: Call nodes of a side-effecting helper in the lowered Hugr (corpus/c05/call_counts.json)
+    # T-obj: core.track_hugr_side_effects on really lowered typed programs vs Model/OrderEdges.lean and vs the literal
+    # reading of `one Input -> effects in program order -> Output path per region` (corpus/c05/order_edges.json + generator)
+    base.tie_order(ctx)
 
 
 def search(ctx, why):
